@@ -77,6 +77,21 @@ DESC.update({
  "C10d": ("LambdaCallKind arm of stringify joins arguments with a hard-coded comma", "immediately invoked LAMBDA with numeric arguments in a comma-decimal locale"),
 })
 
+DESC.update({
+ "C07e": ("position_in_support compares the dependency's sheet with the dependent cell's sheet instead of the written positions' sheet", "two dynamic arrays on different sheets, the earlier reads non-anchor cells of the later spill, one evaluation"),
+ "C11e": ("consume_column_reference skips an escaped character without checking that the input continues", "structured reference whose column name ends the input right after a `'`"),
+ "C12e": ("stringify_reference hoists `full_row || full_column` and uses it to guard both the Row and the Column arm", "whole-column range and insert_columns (or whole-row range and insert_rows)"),
+ "C17e": ("duplicate_sheet de-duplicates copied defined names by exact spelling instead of ignoring case", "global RATE and sheet-local Rate on the duplicated sheet"),
+ "C21e": ("WEEKDAY return type 3 computed from num_days_from_sunday() - 1", "a Sunday serial with return type 3 (underflow)"),
+ "C25e": ("load_hyperlinks caps height and width separately instead of the area", "hyperlink ref spanning 10^4 x 10^4 cells"),
+ "C27e": ("move_row_unchecked: descriptor shift guard `r.r >= target_row` becomes `>`", "upward row move where both the moved row and the landing row carry a descriptor"),
+ "C28e": ("on_arrow_down validates the new row before the hidden-row skip loop instead of after it", "all rows below the selection hidden up to the last row"),
+ "C30e": ("get_style_index_or_create returns 0 for Style::default() without a lookup", "imported workbook whose first xf is not the default style"),
+ "C32e": ("parse_defined_names no longer skips names whose sheet id is unknown (and_then instead of continue)", "global and sheet-local name of the same spelling, the local one's sheet deleted"),
+ "C33e": ("move_row_unchecked: links closure guard `r >= target_row` becomes `>`", "upward row move onto a row that carries a hyperlink"),
+ "C34e": ("cycle_token_text searches `!` from the start of the token instead of after the leading whitespace", "sheet-qualified reference preceded by whitespace"),
+})
+
 def sh(cmd, cwd=None):
     return subprocess.run(cmd, shell=True, cwd=cwd, capture_output=True, text=True)
 def run_check(pid):
